@@ -46,6 +46,7 @@ fire("push-usize-digit-order", ["C16"], "push_usize", E("src/lib.rs", "        p
 fire("push-usize-threshold", ["C16"], "push_usize", E("src/lib.rs", "    if x >= 10 {\n        push_usize(s, x / 10);", "    if x > 10 {\n        push_usize(s, x / 10);"))
 fire("compile-delegate-lit-inverted", ["C03", "C01"], "compile_delegate", E("src/compile.rs", "        let insn = if info.is_literal() {", "        let insn = if !info.is_literal() {"))
 fire("compile-delegate-empty-lit", ["C03", "C01"], "compile_delegate", E("src/compile.rs", "            let mut val = String::new();\n            info.push_literal(&mut val);\n            Insn::Lit(val)", "            let val = String::new();\n            Insn::Lit(val)"))
+fire("cond-trivia-asymmetric", ["C19", "C15"], "no branch follows the condition", E("src/parse.rs", "        if end == self.optional_whitespace(next)? {", "        if end == next {"))
 # ---------------- VM state
 fire("push-nsave-reset", ["C20", "C02"], "State::push", E("src/vm.rs", "            self.nsave = 0;\n            self.trace_stack(\"push\");", "            self.trace_stack(\"push\");"))
 fire("save-logs-new-value", ["C20", "C02"], "State::save", E("src/vm.rs", "        self.oldsave.push(Save {\n            slot,\n            value: self.saves[slot],\n        });", "        self.oldsave.push(Save {\n            slot,\n            value: val,\n        });"))
